@@ -49,7 +49,8 @@ opkinds! {
     RevTakeDrop = 28, "RevTakeDrop";   // it.by_ref().rev().take(a).for_each(drop); f = drop-panic k
     BagDrop = 29, "BagDrop";           // caller destroys a previously yielded element
     TwinMake = 30, "TwinMake";         // fresh second iterator, a pulled from front, b from back
-    CloneProbe = 31, "CloneProbe";     // capability probes: a = 0 it.clone() iff Clone | 1 it.partial_cmp(it) iff PartialOrd | 2 it.as_ref() iff AsRef<[T]>
+    SwapTwin = 19, "SwapTwin";         // mem::swap(&mut it, &mut twin): both iterators change address, each must keep its own elements
+    CloneProbe = 31, "CloneProbe";     // capability probes: a = 0 it.clone() iff Clone | 1 it.partial_cmp(it) iff PartialOrd | 2 it.as_ref() iff AsRef<[T]> | 3 It::default() iff Default
     ItCollect = 32, "ItCollect";       // It -> V; a = 0 collect, 1 rev().collect(), 2 skip(b).collect(); f = default-panic k
     Exhaust = 33, "Exhaust";           // for x in it.by_ref() { bag.push(x) }
     NextIntoInner = 34, "NextIntoInner"; // nested: pull one row/column vector and start an inner iterator on it
@@ -186,6 +187,11 @@ pub fn adapt_planned(which: u32, k: usize, len: usize) -> usize {
 /// Every consumed element is shown to the callback, in order.
 pub fn adapt_exact(which: u32) -> bool {
     which <= 12 || which == 17 || which == 18
+}
+/// The callback is shown the element by reference (`&Item`): when it panics, an implementation
+/// that tests candidates in place may legitimately still hold that element.
+pub fn adapt_by_ref(which: u32) -> bool {
+    matches!(which, 0 | 1 | 9 | 10 | 15 | 17 | 18)
 }
 pub const CONSUME_NAMES: [&str; 6] = ["for_each", "rev+for_each", "max_by_key", "min_by_key", "reduce", "collect<Vec>"];
 pub const N_CONSUME: u32 = 6;
